@@ -30,6 +30,16 @@ theorem Outcome.of_steps {α} {m : Machine} {r : Res α} {base fr K post s s1}
   | stuck => trivial
   | oof => trivial
 
+theorem Outcome.cast {α} {m : Machine} {r : Res α} {base fr K} {post post' : α → Log → VM} {s}
+    (h : Outcome m r base fr K post s) (hp : ∀ a l, post a l = post' a l) : Outcome m r base fr K post' s := by
+  cases r with
+  | val a l => simp only [Outcome] at h ⊢; rw [← hp]; exact h
+  | ret v l => exact h
+  | exit r l => exact h
+  | ffiErr l => exact h
+  | stuck => trivial
+  | oof => trivial
+
 /-- non-value results do not depend on the continuation state -/
 def Res.castNV {α β : Type} : Res α → Res β
   | .val _ _ => .stuck
